@@ -1,6 +1,7 @@
 package main
 
 import (
+	"bytes"
 	"context"
 	"encoding/json"
 	"fmt"
@@ -163,8 +164,9 @@ func scenarioC02(x *runner.X) {
 	x.Sim(runner.SimOpts{Phase: "server", Cfg: dsim.Config{MaxSteps: 40000000, MaxSimTime: 10 * time.Hour, StmtYields: stmtYields}}, func() {
 		s := dsim.Active()
 		multi := NewMultiEpoch(&Options{EpochSearchConcurrency: conc})
+		srvLoad := newServerLoader()
 		for _, lw := range loaded {
-			ep, err := loadEpoch(lw.cfg)
+			ep, err := srvLoad(lw.cfg)
 			if err != nil {
 				s.Fail("oracle", "a freshly indexed epoch cannot be loaded", err.Error())
 			}
@@ -369,8 +371,9 @@ func scenarioC03(x *runner.X) {
 		s := dsim.Active()
 		multi := NewMultiEpoch(&Options{EpochSearchConcurrency: conc})
 		eps := map[uint64]*Epoch{}
+		srvLoad := newServerLoader()
 		for _, lw := range loaded {
-			ep, err := loadEpoch(lw.cfg)
+			ep, err := srvLoad(lw.cfg)
 			if err != nil {
 				s.Fail("oracle", "a freshly indexed epoch cannot be loaded", err.Error())
 			}
@@ -446,8 +449,10 @@ func scenarioC03(x *runner.X) {
 				}
 			}
 			for _, o := range foreign {
-				if data, err := ep.GetNodeByCid(ctx, o.Cid); err == nil {
-					if x.Failf("oracle", "fetching a CID that is not in the CAR returned bytes", "%s: %d bytes", o.Cid, len(data)) {
+				// the epochs of a server share one cache keyed by CID: the object of another loaded
+				// epoch may legitimately be answered from it, but only with the bytes of that CID
+				if data, err := ep.GetNodeByCid(ctx, o.Cid); err == nil && !bytes.Equal(data, o.Data) {
+					if x.Failf("oracle", "fetching a CID that is not in the CAR returned bytes stored under a different CID", "%s: %d bytes", o.Cid, len(data)) {
 						return
 					}
 				}
